@@ -350,46 +350,51 @@ def run_scenario(name, log, outdir):
         violated, problems = faultsweep.run(b, wd, tr, only_files=r"rollback" if name.endswith("rollback") else None)
         return violated, tr
     if name == "c04_create_durable":
-        st = os.path.join(outdir, name + ".strace")
-        subprocess.run(["strace", "-f", "-y", "-e", "trace=openat,fsync,fdatasync", "-o", st, b, "c20_fresh_and_reopen", d],
-                       stdout=subprocess.PIPE, stderr=subprocess.STDOUT, text=True)
-        if not os.path.exists(st):
-            return None, tr
         dbdir = os.path.abspath(d)
-        ev, created, synced, problems = [], [], set(), []
-        dir_synced_after_last_create = False
-        done = False
-        for ln in strace_lines(st):
-            if done:
-                break
-            m = re.search(r"openat\([^,]*, \"([^\"]*)\", ([A-Z_|]+)", ln)
-            if m and os.path.dirname(os.path.abspath(m.group(1))) == dbdir:
-                fn = os.path.basename(m.group(1))
-                if "O_CREAT" in m.group(2) and fn != ".lock" and not fn.startswith("rollback"):
-                    created.append(fn)
-                    dir_synced_after_last_create = False
-                    ev.append("create " + fn)
-                elif created and fn == "meta" and "O_CREAT" not in m.group(2):
-                    done = True   # creation finished: the store is being opened
+        all_ev, problems, any_created = [], [], False
+        for driver in ("c20_fresh_and_reopen", "c04_create_noprealloc"):
+            st = os.path.join(outdir, name + "-" + driver + ".strace")
+            subprocess.run(["strace", "-f", "-y", "-e", "trace=openat,fsync,fdatasync,ftruncate,fallocate", "-o", st, b, driver, d],
+                           stdout=subprocess.PIPE, stderr=subprocess.STDOUT, text=True)
+            if not os.path.exists(st):
                 continue
-            m = re.search(r"(fsync|fdatasync)\(\d+<([^>]*)>", ln)
-            if m and created:
-                pth = os.path.abspath(m.group(2))
-                if pth == dbdir:
-                    dir_synced_after_last_create = True
-                    ev.append("sync <dir>")
-                elif os.path.dirname(pth) == dbdir:
-                    synced.add(os.path.basename(pth))
-                    ev.append("sync " + os.path.basename(pth))
-        for fn in created:
-            if fn not in synced:
-                problems.append("%s created but not fsynced during creation" % fn)
-        if created and not dir_synced_after_last_create:
-            problems.append("the directory is not fsynced after the last file was created")
+            ev, created, dirty = [], [], set()
+            dir_synced_after_last_create = False
+            for ln in strace_lines(st):
+                m = re.search(r"openat\([^,]*, \"([^\"]*)\", ([A-Z_|]+)", ln)
+                if m and os.path.dirname(os.path.abspath(m.group(1))) == dbdir:
+                    fn = os.path.basename(m.group(1))
+                    if "O_CREAT" in m.group(2) and fn != ".lock" and not fn.startswith("rollback"):
+                        created.append(fn)
+                        dirty.add(fn)
+                        dir_synced_after_last_create = False
+                        ev.append("create " + fn)
+                    elif created and fn == "meta" and "O_CREAT" not in m.group(2):
+                        break   # creation finished: the store is being opened
+                    continue
+                m = re.search(r"(fsync|fdatasync|ftruncate|fallocate)\(\d+<([^>]*)>", ln)
+                if m and created:
+                    pth = os.path.abspath(m.group(2))
+                    if m.group(1) in ("ftruncate", "fallocate"):
+                        if os.path.dirname(pth) == dbdir:
+                            dirty.add(os.path.basename(pth))
+                            ev.append("resize " + os.path.basename(pth))
+                    elif pth == dbdir:
+                        dir_synced_after_last_create = True
+                        ev.append("sync <dir>")
+                    elif os.path.dirname(pth) == dbdir:
+                        dirty.discard(os.path.basename(pth))
+                        ev.append("sync " + os.path.basename(pth))
+            any_created = any_created or bool(created)
+            for fn in sorted(dirty):
+                problems.append("%s: %s created / resized but not fsynced afterwards during creation" % (driver, fn))
+            if created and not dir_synced_after_last_create:
+                problems.append("%s: the directory is not fsynced after the last file was created" % driver)
+            all_ev += ["--- driver " + driver] + ev
         with open(tr, "w") as f:
-            f.write("scenario %s: creation of a fresh database under strace\n" % name)
-            f.write("\n".join(ev) + "\nproblems: %s\n" % (problems or "none"))
-        if not created:
+            f.write("scenario %s: creation of a fresh database under strace (default options; preallocate_ht(false))\n" % name)
+            f.write("\n".join(all_ev) + "\nproblems: %s\n" % (problems or "none"))
+        if not any_created:
             return None, tr
         return bool(problems), tr
     if name == "c20_lock_order":
